@@ -8,6 +8,7 @@
  * UNLINK(name) SHUTWR(fd) OUT(label,int) OUTS(label,str)
  * RD returns >=0 bytes (data in rdbuf) or -errno (EAGAIN when it would block).
  */
+static int conf_once_count; static void conf_once_fn(void) { conf_once_count++; }
 static void conformance_cases(void) {
     int l, c, s, r, w, c2, s2;
 
@@ -108,4 +109,27 @@ static void conformance_cases(void) {
     WR(c, "one"); WR(c2, "two");
     OUT("12.first", RD(s, 16)); OUTS("12.first-data", rdbuf); OUT("12.second", RD(s2, 16)); OUTS("12.second-data", rdbuf);
     CLOSE(c); CLOSE(c2); CLOSE(s); CLOSE(s2); CLOSE(l); UNLINK("s12");
+
+    /* 15: synchronisation objects, as far as one thread can observe them */
+    { pthread_mutex_t m = PTHREAD_MUTEX_INITIALIZER;
+      OUT("15.mutex-lock", pthread_mutex_lock(&m)); OUT("15.mutex-trylock-held-is-EBUSY", pthread_mutex_trylock(&m) == EBUSY);
+      OUT("15.mutex-unlock", pthread_mutex_unlock(&m)); OUT("15.mutex-trylock-free", pthread_mutex_trylock(&m)); pthread_mutex_unlock(&m); }
+    { static pthread_once_t once = PTHREAD_ONCE_INIT; conf_once_count = 0;
+      OUT("15.once-first", pthread_once(&once, conf_once_fn)); OUT("15.once-second", pthread_once(&once, conf_once_fn)); OUT("15.once-ran", conf_once_count); }
+    { sem_t sm; OUT("15.sem-init", sem_init(&sm, 0, 2)); OUT("15.sem-try1", sem_trywait(&sm)); OUT("15.sem-wait2", sem_wait(&sm));
+      OUT("15.sem-try-empty-is-EAGAIN", sem_trywait(&sm) < 0 && errno == EAGAIN); OUT("15.sem-post", sem_post(&sm)); OUT("15.sem-try-after-post", sem_trywait(&sm)); sem_destroy(&sm); }
+    { pthread_mutex_t m = PTHREAD_MUTEX_INITIALIZER; pthread_cond_t cv = PTHREAD_COND_INITIALIZER; struct timespec ts;
+      pthread_mutex_lock(&m); OUT("15.cond-signal-nobody", pthread_cond_signal(&cv)); OUT("15.cond-broadcast-nobody", pthread_cond_broadcast(&cv));
+      clock_gettime(CLOCK_REALTIME, &ts); ts.tv_nsec += 2000000; if (ts.tv_nsec >= 1000000000) { ts.tv_nsec -= 1000000000; ts.tv_sec++; }
+      OUT("15.cond-timedwait-is-ETIMEDOUT", pthread_cond_timedwait(&cv, &m, &ts) == ETIMEDOUT);
+      OUT("15.mutex-held-again-after-wait", pthread_mutex_trylock(&m) == EBUSY); pthread_mutex_unlock(&m); }
+    { pthread_spinlock_t sl; pthread_spin_init(&sl, PTHREAD_PROCESS_PRIVATE);
+      OUT("15.spin-lock", pthread_spin_lock(&sl)); OUT("15.spin-trylock-held-is-EBUSY", pthread_spin_trylock(&sl) == EBUSY); OUT("15.spin-unlock", pthread_spin_unlock(&sl));
+      OUT("15.spin-trylock-free", pthread_spin_trylock(&sl)); pthread_spin_unlock(&sl); }
+    { pthread_rwlock_t rw = PTHREAD_RWLOCK_INITIALIZER;
+      OUT("15.rw-rdlock", pthread_rwlock_rdlock(&rw)); OUT("15.rw-second-reader", pthread_rwlock_tryrdlock(&rw)); OUT("15.rw-writer-while-read-is-EBUSY", pthread_rwlock_trywrlock(&rw) == EBUSY);
+      pthread_rwlock_unlock(&rw); pthread_rwlock_unlock(&rw);
+      OUT("15.rw-wrlock", pthread_rwlock_wrlock(&rw)); OUT("15.rw-reader-while-written-is-EBUSY", pthread_rwlock_tryrdlock(&rw) == EBUSY); OUT("15.rw-unlock", pthread_rwlock_unlock(&rw));
+      OUT("15.rw-trywrlock-free", pthread_rwlock_trywrlock(&rw)); pthread_rwlock_unlock(&rw); }
+    OUT("15.self-equal", pthread_equal(pthread_self(), pthread_self()) != 0);
 }
